@@ -345,6 +345,11 @@ thread_local! {
     static LAST_PANIC: RefCell<Option<String>> = const { RefCell::new(None) };
 }
 
+/// What the silent hook recorded for the last panic on this thread.
+pub fn last_panic_text() -> Option<String> {
+    LAST_PANIC.try_with(|p| p.borrow_mut().take()).ok().flatten()
+}
+
 /// Install the silent hook: records "file:line: message", prints nothing
 /// (fd 2 must stay clean for C19).
 pub fn install_silent_hook() {
@@ -366,6 +371,13 @@ pub fn install_silent_hook() {
         } else {
             "non-string panic payload".to_string()
         };
+        // debugging aid: VERIF_DEBUG_PANICS=<file> appends every panic with a backtrace
+        if let Ok(f) = std::env::var("VERIF_DEBUG_PANICS") {
+            use std::io::Write;
+            if let Ok(mut fh) = std::fs::OpenOptions::new().create(true).append(true).open(f) {
+                let _ = writeln!(fh, "PANIC {loc}: {msg}\n{}", std::backtrace::Backtrace::force_capture());
+            }
+        }
         // try_with: the hook may run while the thread's locals are being destroyed
         let _ = LAST_PANIC.try_with(|p| *p.borrow_mut() = Some(format!("{loc}: {msg}")));
     }));
